@@ -36,6 +36,29 @@ theorem T_C18_sphere_nonpositive (vs : List V3) (c : V3) (r : Rat) (h : r ≤ 0)
 example : findInSphere [⟨0, 0, 0⟩, ⟨1, 0, 0⟩, ⟨0, 2, 0⟩] ⟨0, 0, 0⟩ (some (3 / 2)) = [0, 1] := by decide +kernel
 example : findInSphere [⟨0, 0, 0⟩, ⟨1, 0, 0⟩] ⟨1, 0, 0⟩ none = [1] := by decide +kernel
 
+/-- history / frame: the finder holds no copy of the positions — after vertex `k` has been moved the answer is the
+    filter over the *new* positions, so every other vertex is found iff it was found before and vertex `k` iff its new
+    position lies in the sphere -/
+theorem T_C18_sphere_after_move (vs : List V3) (k : Nat) (p c : V3) (r : Option Rat) (i : Nat) :
+    i ∈ findInSphere (vs.set k p) c r ↔
+      if i = k then i < vs.length ∧ inSphere c (r.getD tol) p else i ∈ findInSphere vs c r := by
+  rw [T_C18_sphere, T_C18_sphere]
+  by_cases h : i = k
+  · subst h
+    simp only [if_true, List.length_set, inSphere]
+    constructor
+    · rintro ⟨hl, hr⟩
+      have : (vs.set i p).getD i V3.zero = p := by simp [List.getD_eq_getElem?_getD, hl]
+      rw [this] at hr
+      exact ⟨hl, hr⟩
+    · rintro ⟨hl, hr⟩
+      have : (vs.set i p).getD i V3.zero = p := by simp [List.getD_eq_getElem?_getD, hl]
+      rw [this]
+      exact ⟨hl, hr⟩
+  · have : (vs.set k p).getD i V3.zero = vs.getD i V3.zero := by
+      simp [List.getD_eq_getElem?_getD, List.getElem?_set_ne (Ne.symm h)]
+    simp only [h, if_false, List.length_set, this]
+
 /-- `find_on_plane` returns exactly the vertices that pass `is_point_on_plane` -/
 theorem T_C18_plane (vs : List V3) (o n : V3) (i : Nat) :
     i ∈ findOnPlane vs o n ↔ i < vs.length ∧ onPlane o n (vs.getD i V3.zero) := by
@@ -314,6 +337,30 @@ theorem T_C18_face_halves (t0 t1 : Tri) (q : List V3) (h : mkQuad t0 t1 = .ok q)
 example : rhOk (Hex.ofList cxPts) = true ∧ hullProblems cxPts cxHull 0 = [] ∧ [4, 0, 7, 6, 5, 1, 3, 2] ∉ sym48 ∧
     reorient cxPts cxHull ⟨-53 / 64, -33 / 16, -71 / 16⟩ ⟨169 / 64, -45 / 32, -193 / 32⟩ = .error .degenerate := by
   decide +kernel
+
+/-! ### one re-orienter, several blocks -/
+
+/-- No history: a re-orienter that has already been used for any number of blocks treats the next block exactly like
+    a fresh one — every result of a run is the result of `reorient` for that block alone (directions taken from
+    *its* centre), and the object is unchanged. -/
+theorem T_C18_history (r : Reorienter) (blocks : List Block) :
+    r.run blocks = (r, blocks.map (fun b => reorient b.1 b.2 r.obs r.ceil)) := by
+  induction blocks with
+  | nil => rfl
+  | cons b bs ih => simp only [Reorienter.run, Reorienter.step, ih, List.map_cons]
+
+/-- … hence a block's result does not depend on what was re-oriented before it or after it -/
+theorem T_C18_history_independent (r : Reorienter) (before after : List Block) (b : Block) :
+    (r.run (before ++ b :: after)).2.getD before.length (.error .badView) = reorient b.1 b.2 r.obs r.ceil := by
+  rw [T_C18_history]
+  simp [List.getD_eq_getElem?_getD]
+
+/-- two cubes on opposite sides of the observer: each gets the front that faces the observer from its own centre
+    (the first keeps its numbering, the second is turned by 180° about z) -/
+example : ((Reorienter.mk ⟨0, 1 / 2, 1 / 2⟩ ⟨0, 1 / 2, 100⟩).run
+    [(cubePts.map (fun p => p + ⟨-1 / 2, 5, 0⟩), cubeHull), (cubePts.map (fun p => p + ⟨-1 / 2, -6, 0⟩), cubeHull)]).2.map
+      (fun x => x.toOption.map (fun out => indicesIn cubePts (out.map (fun p => ⟨p.x + 1 / 2, p.y - (if p.y > 2 then 5 else -6), p.z⟩))))
+    = [some [0, 1, 2, 3, 4, 5, 6, 7], some [2, 3, 0, 1, 6, 7, 4, 5]] := by decide +kernel
 
 /-! ### the 48 relabellings and the canonical numbering -/
 
